@@ -237,6 +237,8 @@ Definition cmp_skip (a b : N) : bool :=
 
 (* ConnectionInner::shutdown *)
 Definition inner_shutdown (c : conn) (max_id : N) : res unit conn :=
+  (* a connection that already failed reports that error: nothing is written, nothing recorded *)
+  if shutdown_checks_conn_error && c_conn_error c then Ok c else
   if match c_sent_closing c with Some s => cmp_skip s max_id | None => false end then Ok c
   else if shutdown_frame_is_goaway
        then write_to (set_closing c max_id) (c_control c) (wb_from_frame (FGoaway max_id)) None
